@@ -12,6 +12,7 @@
    The identifier half (deprecated_same_ident, on model/Hash.v) is added at the end of this file. *)
 From Coq Require Import ZArith List Bool Permutation.
 From XV Require Import model.Deprecate proofs.Deprecate_lemmas.
+From XV Require Import core.Value model.Hash model.Edits proofs.Hash_lemmas proofs.Neutral_lemmas.
 Import ListNotations.
 Open Scope Z_scope.
 
@@ -99,3 +100,28 @@ Proof. exact cleanup_twice_refuted. Qed.
 Print Assumptions C20_cleanup_twice_refuted.
 
 (* ---- identifier half: `deprecated_same_ident` (model/Hash.v) goes below this line ---- *)
+
+(* A configuration whose class is deprecated carries the type identifier of its replacement and the
+   same arguments: moving any node of any graph from one class to another class with the same type
+   identifier and the same arguments (in any order) leaves the identifier of EVERY node unchanged -
+   wherever the node occurs (nested, in lists and dicts, as producing task), for any hash function
+   and cache state                                                                                *)
+Theorem C20_deprecated_same_identifier : forall H cs h look n x c c' k',
+  nth_error h n = Some x -> nth_error cs (n_cls x) = Some c -> nth_error cs k' = Some c' ->
+  same_sig_class c c' ->
+  forall fuel m, raw_ident H cs h look fuel m = raw_ident H cs (upd_nth h n (with_cls x k')) look fuel m.
+Proof. exact reclass_neutral. Qed.
+Print Assumptions C20_deprecated_same_identifier.
+
+(* the same for a whole class table: two tables that give every node the same type identifier and
+   the same selected arguments identify every node alike                                          *)
+Theorem C20_class_tables_same_identifier : forall H cs cs' h look,
+  (forall n x, nth_error h n = Some x ->
+     match nth_error cs (n_cls x), nth_error cs' (n_cls x) with
+     | Some c, Some c' => c_tid c = c_tid c' /\ sigargs h (n_fields x) (c_args c) = sigargs h (n_fields x) (c_args c')
+     | None, None => True
+     | _, _ => False
+     end) ->
+  forall fuel m, raw_ident H cs h look fuel m = raw_ident H cs' h look fuel m.
+Proof. exact class_table_neutral. Qed.
+Print Assumptions C20_class_tables_same_identifier.
